@@ -343,7 +343,7 @@ theorem apply_chk (p : Pid) (gt' : Int) (o : Outcome) (hq : o.quiet = true → o
 
 /-- **One pass of the loop preserves the agreement between log and fronts.** -/
 theorem iter_sync (c : Cfg) (hb : PosBeh c.beh) (endT : Int) (force : Bool) (s : St)
-    (hle : s.gt ≤ endT) (hinv : Inv s) (hnd : NodupPids s) (hsync : Sync s) :
+    (hle : s.gt < endT) (hinv : Inv s) (hnd : NodupPids s) (hsync : Sync s) :
     Sync (iter c endT force s) := by
   have hidle : ∀ pf ∈ s.fronts, pf.2.time ≤ s.gt → pf.2.pending = none := by
     intro pf hpf hle'
